@@ -9,14 +9,25 @@ rest states over orography (four classes), the analytic-oracle differential (a l
 shallow-water jets through `one_layer` / `multi_layer`.
 
 Known finding (keyed `sw-factory-units`): the factories hard-code radius = 1 and 2Ω = 1.
+
+Tolerances (all measured on the unchanged tree, float64, see `ctx.notes` in the evidence for the
+worst ratio measured / allowed of the current run):
+* hypothesis `clip f = f` of a resolved jet: in exact arithmetic the top total wavenumber of the four
+  fields is zero; in floating point it carries rounding noise of 1e-14 (equiangular) .. 3e-12 (Gaussian
+  T21/T42) of max|f|, so the validation uses 1e-10; the hypotheses are asserted only where they hold analytically (2 deg p + 2 <= L - 1 and
+  exact quadrature), an unresolved control jet (measured 3e-5 .. 4e-2 at the top wavenumber) checks that the
+  validation discriminates;
+* steadiness of balanced states: 1e-10..1e-11 of the natural scale (measured 2e-16 .. 3e-13);
+* analytic-oracle differential: 1e-9 relative (measured 1e-14 .. 2e-11).
 """
 import numpy as np
 
 import common
 from common import fvec, fbits, fmat, unfvec, unfmat, unfbits
 import dinoutil
-from props import c05_sw
+from props import c05_sw, c05_pe
 from props.c05_sw import SWCfg
+from props.c05_pe import Poly, Q_KEY, QL_KEY, QI_KEY
 
 RULE = ('grids: Gaussian / equiangular (never equiangular_with_poles), both spherical-harmonics implementations, '
         'radius in {1, 2, 0.37, 6371.22}; level sets 1..8 layers equidistant / uneven / strongly uneven; '
@@ -26,6 +37,14 @@ RULE = ('grids: Gaussian / equiangular (never equiangular_with_poles), both sphe
         '(probe, configuration, data) hashes')
 
 FINDING_KEY = 'sw-factory-units'
+HYP_CLIP_TOL = 1e-10     # |clip f - f| / max|f| for a field whose top wavenumber is analytically zero
+WORST = {}               # probe -> worst (measured / allowed) of this run, for the evidence
+
+
+def margin(name, measured, allowed):
+  if allowed > 0:
+    WORST[name] = max(WORST.get(name, 0.0), measured / allowed)
+  return measured <= allowed
 
 
 # ----------------------------------------------------------------------------------------------
@@ -116,7 +135,9 @@ def run_shallow_water(ctx):
     ms, ns = grid.modal_shape, grid.nodal_shape
     mask = np.asarray(grid.mask, dtype=float)
     lat = np.arcsin(np.asarray(grid.nodal_axes[1]))
-    for layers in ([1, 2, 3] if ctx.quick else [1, 2, 3, 4]):
+    # JAX compiles every operation once per shape: the quick tier uses five (grid, layers) shapes
+    quick_layers = {'T3-gauss-r1': [1, 2, 3], 'T2-gauss-r2': [2], 'T3-equiangular-offset-fast': [3]}
+    for layers in (quick_layers[label] if ctx.quick else [1, 2, 3, 4]):
       dens = random_densities(rng, layers)
       omega = float(rng.choice([0.5, 1.0, rng.uniform(0.1, 2.0)]))
       refpot = rng.uniform(0.05, 2.0, layers)
@@ -232,8 +253,13 @@ def validate_operator_laws(ctx, grid, label):
   ctx.case(('laws', label), nontrivial=True)
 
 
-def validate_jet(ctx, grid, u_lat, pot_modal, inp):
-  """`ZonalJet` of BalanceSW.lean for the zonal wind `u_lat` (1-D over latitude) on `grid`."""
+def validate_jet(ctx, grid, u_lat, pot_modal, inp, resolved=True):
+  """`ZonalJet` of BalanceSW.lean for the zonal wind `u_lat` (1-D over latitude) on `grid`.
+
+  `resolved=True`: the jet is in the domain where every hypothesis holds analytically (band-limited,
+  exact quadrature); a hypothesis that fails there is reported (a transform or operator of the real code is
+  off).  `resolved=False` (control): nothing is asserted, the verdict is only returned.
+  """
   import jax.numpy as jnp
   from dinosaur import spherical_harmonic as sh
   J = jnp.asarray
@@ -243,27 +269,41 @@ def validate_jet(ctx, grid, u_lat, pot_modal, inp):
   _, sin = grid.nodal_mesh
   sin = np.broadcast_to(np.asarray(sin), ns)
   S, T, Nd, clip = grid.sec_lat_d_dlat_cos2, grid.to_modal, grid.to_nodal, grid.clip_wavenumbers
+  expect = ctx.expect if resolved else (lambda ok, *a: ok)
+  margin = globals()['margin'] if resolved else (lambda name, measured, allowed: measured <= allowed)
   U = T(J(u / cos))
   zeta = -np.asarray(S(U))
   sc = max(relmax(u), 1e-300)
   curl = grid.curl_cos_lat((U, jnp.zeros_like(U)), clip=False)
   uv = sh.get_cos_lat_vector(curl, jnp.zeros_like(curl), grid, clip=True)
   ok = True
-  ok &= ctx.expect(relmax(Nd(uv[0]), u * cos) <= 1e-11 * sc, 'law:jet:helmholtz',
-                   'get_cos_lat_vector(curl_cos_lat(u)) != u cos(lat)', inp)
+  ok &= expect(margin('hyp:helmholtz', relmax(Nd(uv[0]), u * cos), 1e-10 * sc), 'law:jet:helmholtz',
+               'get_cos_lat_vector(curl_cos_lat(u)) != u cos(lat)', inp)
   zs = max(relmax(zeta), 1e-300)
   fields = dict(psi=grid.inverse_laplacian(J(zeta)), b1=T(J(u / cos) * Nd(J(zeta))), b2=T(J(u / cos * sin)),
                 g=T(J(u / cos) * Nd(clip(J(pot_modal)))))
   for k, f in fields.items():
-    ok &= ctx.expect(relmax(grid.d_dlon(f)) <= 1e-12 * max(relmax(f), 1e-300), f'law:jet:zonal_{k}',
-                     f'd_dlon of the zonal field {k} is not zero', inp)
+    ok &= expect(margin('hyp:zonal', relmax(grid.d_dlon(f)), 1e-12 * max(relmax(f), 1e-300)), f'law:jet:zonal_{k}',
+                 f'd_dlon of the zonal field {k} is not zero', inp)
   x1 = S(T(J(u / cos) * Nd(J(zeta))))
   x2 = S(T(J(u / cos * sin)))
   x3 = grid.laplacian(T(J(u * u / 2)))
   for k, f in dict(vorticity=J(zeta), X1=x1, X2=x2, X3=x3).items():
-    ok &= ctx.expect(relmax(clip(f), f) <= 1e-12 * max(relmax(f), zs, 1e-300), f'law:jet:clip_{k}',
-                     f'clip_wavenumbers changes {k}: the jet is not resolved on this grid', inp)
+    # exact statement: the coefficients of the top total wavenumber vanish; measured rounding noise there
+    # 1e-14 .. 3e-12 of max|f| (module docstring)
+    ok &= expect(margin('hyp:clip', relmax(clip(f), f), HYP_CLIP_TOL * max(relmax(f), zs, 1e-300)),
+                 f'law:jet:clip_{k}', f'clip_wavenumbers changes {k} of a jet that is resolved on this grid', inp)
   return ok, np.asarray(x2), np.asarray(x3)
+
+
+def jet_is_resolved(grid, spacing, deg):
+  """u = cos(lat) p(sin lat), deg p = d: zeta has degree d+1, X1 = S(u/cos * zeta) degree 2d+2, X2 d+2,
+  X3 = lap(u^2/2) 2d+2.  Resolved: all below the clipped total wavenumber; exact quadrature of the nodal
+  products against P_l: Gauss 2 nlat - 1, equiangular nlat - 1."""
+  top = grid.modal_shape[1] - 1
+  nlat = grid.nodal_shape[1]
+  exact = 2 * nlat - 1 if spacing == 'gauss' else nlat - 1
+  return 2 * deg + 2 <= top - 1 and (2 * deg + 2) + top <= exact
 
 
 # ----------------------------------------------------------------------------------------------
@@ -279,17 +319,34 @@ def probe_shallow_water(ctx):
   impls = [sh.RealSphericalHarmonics, sh.FastSphericalHarmonics]
   unit_cases = [(1.0, 0.5, 'factory-units')] * 3 + [(2.0, 0.5, 'radius-2'), (1.0, 1.0, 'omega-1'),
                                                    (6371.22, 7.292e-5 * 3600, 'km-hour'), (0.37, 0.81, 'other')]
+  grids = {}
+
+  def get_grid(wn, spacing, impl, radius):
+    key = (wn, spacing, impl.__name__, radius)
+    if key not in grids:
+      grids[key] = sh.Grid.with_wavenumbers(wn, latitude_spacing=spacing, radius=radius, spherical_harmonics_impl=impl,
+                                            dealiasing='cubic' if spacing == 'equiangular' else 'quadratic')
+    return grids[key]
+
   ncase = ctx.n(14, 120)
+  # quick tier: five (grid shape, layers) combinations (JAX compiles per shape), every unit case on several of them
+  quick_shapes = [(15, 'gauss', 0, 1), (21, 'gauss', 1, 2), (15, 'equiangular', 1, 3), (15, 'gauss', 0, 4),
+                  (21, 'gauss', 1, 1)]
   for ci in range(ncase):
     radius, omega, ulabel = unit_cases[ci % len(unit_cases)]
-    wn = int(rng.choice([15, 21] if ctx.quick else [15, 21, 31, 42]))
-    impl = impls[ci % 2]
-    spacing = 'gauss' if ci % 5 else 'equiangular'
-    grid = sh.Grid.with_wavenumbers(wn, latitude_spacing=spacing, radius=radius, spherical_harmonics_impl=impl,
-                                    dealiasing='cubic' if spacing == 'equiangular' else 'quadratic')
-    layers = [1, 2, 3, 1, 4][ci % 5]
+    if ctx.quick:
+      wn, spacing, ii, layers = quick_shapes[ci % len(quick_shapes)]
+      impl = impls[ii]
+    else:
+      wn = int(rng.choice([15, 21, 31, 42]))
+      impl = impls[ci % 2]
+      spacing = 'gauss' if ci % 5 else 'equiangular'
+      layers = [1, 2, 3, 1, 4][ci % 5]
+    grid = get_grid(wn, spacing, impl, radius)
     dens = random_densities(rng, layers)
     coefs = [jet_profile(rng, deg=(0 if ci == 0 else None)) for _ in range(layers)]
+    # the generator is bounded to the domain of the theorem: resolved, alias-free jets (deg p <= 4, wn >= 15)
+    assert all(jet_is_resolved(grid, spacing, len(c) - 1) for c in coefs)
     lat = np.arcsin(np.asarray(grid.nodal_axes[1]))
     u = np.stack([jet(lat, c) for c in coefs])
     refpot = rng.uniform(0.05, 2.0, layers)
@@ -311,28 +368,47 @@ def probe_shallow_water(ctx):
       s_vor = max(relmax(st.vorticity), 1e-300)
       s_pot = max(relmax(st.potential), 1e-300)
       tol = 1e-11 * max(1.0, cond)
-      # hypotheses of T5.3 on this input (per layer)
+      # hypotheses of T5.3 on this input (per layer): asserted, the input is in the resolved domain
       pred = np.zeros_like(tot.divergence)
       hyp_ok = True
       for k in range(layers):
         ok, x2, x3 = validate_jet(ctx, grid, u[k], np.asarray(st.potential[k]), dict(inp, layer=k))
         hyp_ok &= ok
         pred[k] = (1 - radius ** 2) * x3 + (1 - 2 * omega) * x2
+      if not hyp_ok:
+        continue      # reported by validate_jet; the conclusions of the theorems are not claimed without them
       # always: zero vorticity / potential tendency, and the divergence tendency is the predicted residual
-      ctx.expect(relmax(tot.vorticity) <= tol * s_vor * s_vor * max(1, radius) and
-                 relmax(tot.potential) <= tol * s_pot * s_vor * max(1, radius), 'sw-zonal-vort-pot',
+      ctx.expect(margin('sw:vort', relmax(tot.vorticity), tol * s_vor * s_vor * max(1, radius)) and
+                 margin('sw:pot', relmax(tot.potential), tol * s_pot * s_vor * max(1, radius)), 'sw-zonal-vort-pot',
                  'vorticity / potential tendency of a zonal factory state is not zero', inp)
-      ctx.expect(relmax(tot.divergence, pred) <= tol * max(s_div, relmax(pred)), 'sw-residual-formula',
-                 'divergence tendency differs from (1-r^2) lap(u^2/2) + (1-2 Omega) S(u tan(lat)) (theorem '
-                 'one_layer_total)', inp)
-      steady = relmax(tot.divergence) <= tol * s_div
+      ctx.expect(margin('sw:residual-formula', relmax(tot.divergence, pred), tol * max(s_div, relmax(pred))),
+                 'sw-residual-formula',
+                 'divergence tendency differs from (1-r^2) lap(u^2/2) + (1-2 Omega) S(u tan(lat)) (theorems '
+                 'one_layer_total / multi_layer_total)', inp)
       if ulabel == 'factory-units':
+        steady = margin('sw:steady', relmax(tot.divergence), tol * s_div)
         ctx.expect(steady, 'sw-jet-steady', f'factory state not steady in its own units: '
                    f'residual {relmax(tot.divergence) / s_div:.2e} of |lap Phi|', inp)
       else:
         # the known finding: the factories ignore grid.radius and the angular velocity
+        steady = relmax(tot.divergence) <= tol * s_div
         ctx.expect(steady, FINDING_KEY, f'one_layer/multi_layer state under radius={radius}, Omega={omega}: '
                    f'residual {relmax(tot.divergence) / s_div:.2e} of |lap Phi|', inp)
+  # negative control of the hypothesis validation: a jet that is NOT resolved (X1 has degree 2d+2 > L) must be
+  # flagged, and nothing is claimed about its tendency
+  flagged = []
+  for wn, deg in [(15, 7), (21, 12)]:
+    grid = get_grid(wn, 'gauss', impls[0], 1.0)
+    lat = np.arcsin(np.asarray(grid.nodal_axes[1]))
+    coef = 0.5 * np.cos(1.0 + 2.3 * np.arange(deg + 1))     # mixed parity: every total wavenumber is excited
+    assert not jet_is_resolved(grid, 'gauss', deg)
+    ul = jet(lat, coef)
+    pot = np.asarray(sws.one_layer(jnp.asarray(ul), grid).potential)
+    ok, _, _ = validate_jet(ctx, grid, ul, pot, dict(control=f'T{wn} deg {deg}'), resolved=False)
+    flagged.append(not ok)
+    ctx.dist['sw-probe:unresolved-control'] += 1
+  ctx.obligation('hypothesis validation flags an unresolved jet (negative control)', 'harness-self-check', all(flagged),
+                 f'flagged={flagged}')
   # replay of the Lean negative witnesses on the real code: u = cos(lat)
   for radius, omega, expect_nodal, name in [(2.0, 0.5, lambda s: 0.75 * (1 - 3 * s * s), 'radius'),
                                             (1.0, 1.0, lambda s: -(1 - 3 * s * s), 'omega')]:
@@ -350,13 +426,352 @@ def probe_shallow_water(ctx):
                  'sw-witness-replay', f'Lean negative witness ({name}) does not reproduce on the real code', inp)
       ctx.case(('sw-witness', name), nontrivial=True)
 
+# ----------------------------------------------------------------------------------------------
+# primitive equations: correspondence of the rest state with the model, and sentinel probes on the real classes
+
+PE_CLASSES = c05_pe.CLASSES
+REST_TOL = 1e-12     # dry classes: residual of a resting state / |g lap h|   (measured 2e-16 .. 8e-15)
+REST_TOL_MOIST = 1e-10   # moist classes: the humidity term goes through to_modal(q * to_nodal(lap ln ps)); the
+                         # transform round trip of the Gaussian T21/T42 grids is exact to 2e-12 only (measured 3e-15 .. 2e-12)
+BAL_TOL = 1e-10      # residual of a balanced rotating state / natural scale (measured <= 5e-13)
+ORACLE_TOL = 1e-9    # code vs pointwise continuous equations, relative   (measured 1e-14 .. 2e-11)
+
+
+def _tracer_names(cls, extra):
+  base = {'dry': (), 'time': (), 'moist': (Q_KEY,), 'cloud': (Q_KEY, QL_KEY, QI_KEY)}[cls]
+  return base + (('x',) if extra else ())
+
+
+def rest_correspondence(ctx, E):
+  """The states of T5.1 (`restState n (restLnp …)`) through the `dyn` driver: explicit / implicit terms of the
+  model = those of the real classes, and the model's own total is zero (the theorem, executed at Float)."""
+  from props.c04_dyn import DynCfg, flat_state, compare_struct
+  rng, jnp, pe = ctx.rng, E.jnp, E.pe
+  grid = E.grid(4)
+  ms, mask = grid.modal_shape, np.asarray(grid.mask, dtype=float)
+  one = np.zeros(ms)
+  one[0, 0] = pe._CONSTANT_NORMALIZATION_FACTOR     # the model's `oneModal` (what DynCfg sends)
+  lines, checks = [], []
+  for n, kind in ([(1, 'equidistant'), (2, 'strongly-uneven'), (3, 'uneven')] if ctx.quick else
+                  [(1, 'equidistant'), (2, 'strongly-uneven'), (3, 'uneven'), (4, 'refined-bottom'), (5, 'uneven')]):
+    b, kind = dinoutil.random_boundaries(rng, n, kind)
+    vert = E.sc.SigmaCoordinates(b)
+    coords = E.cs.CoordinateSystem(horizontal=grid, vertical=vert)
+    specs = E.specs(rng, 1.0)
+    t0 = float(rng.uniform(0.05, 0.5)) / specs.R
+    tref = np.full(n, t0)
+    h = np.asarray(grid.clip_wavenumbers(jnp.asarray(rng.standard_normal(ms) * mask * 0.05 * specs.R * t0 / specs.g)))
+    cfg = DynCfg(grid, vert, specs, tref, h, True)
+    for cls in PE_CLASSES:
+      names = _tracer_names(cls, extra=True)
+      q0 = float(rng.uniform(0.002, 0.03)) if cls in ('moist', 'cloud') else 0.0
+      reff = specs.R * (1 + (specs.R_vapor / specs.R - 1) * q0)
+      lnp = -specs.g * h / (reff * t0) + float(rng.uniform(-1, 1)) * one
+      tr = {}
+      for k in names:
+        tr[k] = np.broadcast_to(q0 * one, (n,) + ms).copy() if k == Q_KEY else rng.standard_normal((n,) + ms) * mask * 0.01
+      z = np.zeros((n,) + ms)
+      kw = dict(vorticity=jnp.asarray(z), divergence=jnp.asarray(z), temperature_variation=jnp.asarray(z),
+                log_surface_pressure=jnp.asarray(lnp[None]), tracers={k: jnp.asarray(v) for k, v in tr.items()})
+      tm = 0.5
+      s = pe.State(**kw) if cls == 'dry' else pe.StateWithTime(sim_time=tm, **kw)
+      s_tok = cfg.state(pe.StateWithTime(sim_time=tm, **kw), tm)
+      inp = dict(probe='rest-correspondence', cls=cls, layers=n, levels=kind, boundaries=b.tolist(), T0=t0, q0=q0)
+      ctx.dist[f'rest-corr:{cls}:layers={n}'] += 1
+      ctx.case(('rest-corr', cls, n, lnp.tobytes()), nontrivial=relmax(h) > 0, sample=inp if (cls, n) == ('moist', 2) else None)
+      with ctx.impl('rest-state-raised', inp):
+        eq = E.CL[cls](tref, jnp.asarray(h), coords, specs)
+        for op in ('explicit', 'implicit'):
+          r = getattr(eq, op + '_terms')(s)
+          lines.append(cfg.line(op, cls, s_tok))
+          checks.append((f'{cls}.{op}_terms[rest]', inp, flat_state(r, tm), specs.g * relmax(grid.laplacian(jnp.asarray(h)))))
+  outs = ctx.model(lines)
+  for i in range(0, len(outs), 2):
+    parts = []
+    for (op, inp, impl, scale), o in zip(checks[i:i + 2], outs[i:i + 2]):
+      if o in ('bad-op', 'value-error'):
+        ctx.corr_mismatch(op, inp, 'value', o, 'model rejected the operation')
+        continue
+      m = DynCfg.un_state(o)
+      compare_struct(ctx, op, inp, impl, m, fields=('vorticity', 'divergence', 'temperature_variation',
+                                                    'log_surface_pressure', 'tracers'))
+      parts.append(m)
+    if len(parts) == 2:   # the theorem executed on the model at Float: explicit + implicit = 0
+      tot = max(relmax(parts[0][f] + parts[1][f]) for f in ('vorticity', 'divergence', 'temperature_variation',
+                                                             'log_surface_pressure'))
+      ctx.obligation(f'model rest state steady at Float ({checks[i][0]})', 'model-execution',
+                     margin('rest:model', tot, 1e-9 * max(checks[i][3], 1e-300)), f'residual {tot:.2e}')
+
+
+def _modal(grid, jnp, x):
+  return np.asarray(grid.to_modal(jnp.asarray(x)))
+
+
+def _nodal(grid, jnp, x):
+  return np.asarray(grid.to_nodal(jnp.asarray(x)))
+
+
+def probe_rest(ctx, E, G, cls, variant):
+  """(a) resting isothermal atmosphere in hydrostatic balance over random band-limited orography."""
+  rng, jnp = ctx.rng, E.jnp
+  grid, coords, specs, b, n, label = G['grid'], G['coords'], G['specs'], G['b'], G['n'], G['label']
+  ms, mask, one = grid.modal_shape, np.asarray(grid.mask, dtype=float), G['one']
+  moist = cls in ('moist', 'cloud')
+  t0 = float(rng.uniform(0.05, 0.5)) / specs.R
+  q0 = float(rng.choice([0.0, 0.01, rng.uniform(0.001, 0.04)])) if moist else 0.0
+  reff = specs.R * (1 + (specs.R_vapor / specs.R - 1) * q0)
+  h = rng.standard_normal(ms) * mask * float(rng.choice([0.02, 0.2])) * specs.R * t0 / specs.g
+  h *= 1.0 / (1.0 + np.arange(ms[1]))[None, :]               # red spectrum, all wavenumbers present
+  if variant != 'unclipped':
+    h = np.asarray(grid.clip_wavenumbers(jnp.asarray(h)))     # what truncated_modal_orography produces
+  lnp = -specs.g * h / (reff * t0) + float(rng.uniform(-1, 1)) * one
+  tref = np.full(n, t0) if variant != 'tref-split' else t0 * rng.uniform(0.7, 1.2, n)
+  tv = (t0 - tref)[:, None, None] * one
+  tr = {}
+  for k in _tracer_names(cls, extra=bool(rng.integers(0, 2))):
+    if k == Q_KEY:
+      tr[k] = np.broadcast_to(q0 * one, (n,) + ms).copy()
+    elif k in (QL_KEY, QI_KEY):     # arbitrary condensate fields where T' = 0 (theorem rest_steady_cloud)
+      tr[k] = rng.standard_normal((n,) + ms) * mask * 1e-3 if variant != 'tref-split' else np.zeros((n,) + ms)
+    else:
+      tr[k] = rng.standard_normal((n,) + ms) * mask
+  z = np.zeros((n,) + ms)
+  inp = dict(probe='rest', cls=cls, variant=variant, grid=label, boundaries=b.tolist(), T0=t0, q0=q0, tref=tref.tolist(),
+             g=specs.g, R=specs.R, R_vapor=specs.R_vapor, tracers=sorted(tr), seed=ctx.seed)
+  ctx.dist[f'rest:{cls}:{variant}:{label}:layers={n}'] += 1
+  ctx.case(('rest', cls, variant, label, h.tobytes(), b.tobytes()), nontrivial=n >= 2 and relmax(h) > 0,
+           sample=inp if variant == 'theorem' and cls == 'cloud' else None)
+  with ctx.impl('rest-probe-raised', inp):
+    tot = E.total(cls, tref, h, coords, specs, dict(vorticity=z, divergence=z, temperature_variation=tv,
+                                                     log_surface_pressure=lnp[None], tracers=tr))
+    glap = specs.g * np.asarray(grid.laplacian(jnp.asarray(h)))
+    s_div = max(relmax(_nodal(grid, jnp, glap)), 1e-300)
+    s_t = np.sqrt(s_div)
+    expected = np.zeros((n,) + ms)
+    if variant == 'unclipped':      # theorem rest_total_dry: only what clip_wavenumbers removes from g lap h survives
+      expected = expected + (specs.R / reff) * (glap - np.asarray(grid.clip_wavenumbers(jnp.asarray(glap))))
+    res = relmax(_nodal(grid, jnp, tot['divergence'] - expected))
+    ctx.expect(margin(f'rest:{"moist" if moist else "dry"}', res, (REST_TOL_MOIST if moist else REST_TOL) * s_div), f'rest-not-steady:{cls}',
+               f'resting isothermal atmosphere over orography ({variant}): divergence tendency residual '
+               f'{res / s_div:.2e} of |g lap h|', inp)
+    others = dict(vorticity=s_div, temperature_variation=t0 * s_t, log_surface_pressure=s_t)
+    others.update({'tr:' + k: max(relmax(v), 1e-300) * s_t for k, v in tr.items()})
+    for f, sc in others.items():
+      r = relmax(_nodal(grid, jnp, tot[f]))
+      ctx.expect(margin('rest:other-fields', r, REST_TOL * sc), f'rest-not-steady:{cls}',
+                 f'resting atmosphere ({variant}): {f} tendency {r:.2e} (scale {sc:.2e})', inp)
+    if cls != 'dry':
+      ctx.expect(tot['sim_time'] == 1.0, f'rest-not-steady:{cls}', 'sim_time does not advance at rate one', inp)
+
+
+def solid_body_state(rng, specs, n, cls, tref):
+  """Solid-body zonal rotation u_k = U_k cos(lat) per layer, horizontally uniform T_k and humidity, zonal
+  orography h = h0 sin^2(lat), ln ps = pi0 - c sin^2(lat) / 2.
+
+  Meridional momentum balance per layer (u^2 tan/a + f u = -(1/a) d(Phi)/dlat - (R Tv/a) d(ln ps)/dlat, Phi_k =
+  g h + const_k):   U_k^2 + 2 Omega a U_k + 2 g h0 = c R Tv_k.
+  Everything else vanishes identically: v.grad(ln ps) = 0, so sigma-dot = omega = 0; v.grad T = v.grad q = 0.
+  `Tv_k` is what multiplies R grad(ln ps) in the class at hand (for the cloud class T(1 + eps q) - T'(q_l + q_i)).
+  """
+  a, om, g, R = specs.radius, specs.angular_velocity, specs.g, specs.R
+  eps = specs.R_vapor / R - 1
+  moist = cls in ('moist', 'cloud')
+  while True:
+    t0 = float(rng.uniform(0.05, 0.5)) / R
+    temp = t0 * rng.uniform(0.7, 1.2, n)                      # any per-layer temperature profile
+    q0 = float(rng.uniform(0.0, 0.04)) if moist else 0.0
+    ql, qi = (rng.uniform(0, 3e-3, 2) if cls == 'cloud' else (0.0, 0.0))
+    tv = temp * (1 + eps * q0) - (temp - tref) * (ql + qi)
+    h0 = float(rng.choice([0.0, rng.uniform(-0.1, 0.1) * R * t0 / g]))
+    u_top = float(rng.choice([-1, 1])) * float(rng.uniform(0.05, 0.6)) * om * a
+    c = (u_top ** 2 + 2 * om * a * u_top + 2 * g * h0) / (R * tv[0])
+    disc = (om * a) ** 2 + c * R * tv - 2 * g * h0
+    if np.all(disc > 1e-3 * (om * a) ** 2) and abs(c) > 1e-3:
+      break
+  sign = np.where(rng.random(n) < 0.8, 1.0, -1.0)            # either root (the second one is the fast westward flow)
+  u = -om * a + sign * np.sqrt(disc)
+  u[0] = u_top
+  assert np.allclose(u ** 2 + 2 * om * a * u + 2 * g * h0, c * R * tv, rtol=1e-12, atol=0)
+  zed = Poly.coord(2)
+  fields = dict(psi=Poly.const(-a * u) * zed, chi=Poly.const(np.zeros(n)) * zed, T=Poly.const(temp),
+                pi=Poly.stack([Poly.const(float(rng.uniform(-1, 1))) - zed * zed * (c / 2)]),
+                h=Poly.stack([zed * zed * h0]))
+  tracers = {}
+  if moist:
+    tracers[Q_KEY] = Poly.const(np.full(n, q0))
+  if cls == 'cloud':
+    tracers[QL_KEY], tracers[QI_KEY] = Poly.const(np.full(n, ql)), Poly.const(np.full(n, qi))
+  scales_ = dict(c=c, u=u, tv=tv, temp=temp, q0=q0, h0=h0)
+  return fields, tracers, scales_
+
+
+def state_from_fields(E, G, fields, tracers, tref, st_exact):
+  grid, jnp, pts = G['grid'], E.jnp, G['pts']
+  T = lambda x: _modal(grid, jnp, x)
+  n = G['n']
+  full = lambda p: np.broadcast_to(p(pts), (n,) + pts.shape[:-1]) if p.c.ndim == 4 else p(pts)
+  kw = dict(vorticity=T(st_exact['vorticity']), divergence=T(st_exact['divergence']),
+            temperature_variation=T(full(fields['T'] - Poly.const(np.asarray(tref, float)))),
+            log_surface_pressure=T(fields['pi'](pts)), tracers={k: T(full(v)) for k, v in tracers.items()})
+  return kw, T(fields['h'](pts))[0]
+
+
+def probe_solid_body(ctx, E, G, cls):
+  """(b) solid-body rotation in gradient-wind balance: steady (analytic-oracle differential, balanced member)."""
+  rng, jnp = ctx.rng, E.jnp
+  grid, coords, specs, b, n, label, pts = (G[k] for k in ('grid', 'coords', 'specs', 'b', 'n', 'label', 'pts'))
+  tref = G['t0'] * rng.uniform(0.7, 1.2, n) if rng.random() < 0.7 else np.full(n, G['t0'])
+  fields, tracers, sc = solid_body_state(rng, specs, n, cls, tref)
+  if rng.random() < 0.5:
+    tracers['x'] = Poly.const(rng.uniform(0.5, 2.0, n))        # a horizontally uniform passive tracer
+  a = specs.radius
+  inp = dict(probe='solid-body', cls=cls, grid=label, boundaries=b.tolist(), U=sc['u'].tolist(), T=sc['temp'].tolist(),
+             tref=tref.tolist(), q0=sc['q0'], c=sc['c'], h0=sc['h0'], omega=specs.angular_velocity, radius=a,
+             g=specs.g, R=specs.R, R_vapor=specs.R_vapor, seed=ctx.seed)
+  ctx.dist[f'solid-body:{cls}:{label}:layers={n}'] += 1
+  ctx.case(('solid-body', cls, label, sc['u'].tobytes(), b.tobytes()), nontrivial=True,
+           sample=inp if cls == 'moist' else None)
+  umax = max(np.abs(sc['u']).max(), 1e-300)
+  s_div = 2 * specs.R * np.abs(sc['tv']).max() * abs(sc['c']) / a ** 2 + (umax / a) ** 2
+  rate = umax / a * max(abs(sc['c']), 1.0)
+  scales_ = dict(vorticity=s_div, divergence=s_div, temperature_variation=np.abs(sc['temp']).max() * rate,
+                 log_surface_pressure=rate)
+  orc, st = c05_pe.sphere_oracle(cls, b, c05_pe.phys_of(specs), tref, fields, tracers, pts)
+  # self-check of the derivation above: the continuous equations themselves say "steady"
+  self_ok = all(relmax(orc[f]) <= 1e-12 * s for f, s in scales_.items())
+  ctx.obligation('oracle: solid-body rotation is a steady solution of the continuous equations', 'harness-self-check',
+                 self_ok, str({f: relmax(orc[f]) for f in scales_}) if not self_ok else '')
+  with ctx.impl('solid-body-raised', inp):
+    kw, oro = state_from_fields(E, G, fields, tracers, tref, st)
+    tot = E.total(cls, tref, oro, coords, specs, kw)
+    for k in tracers:
+      scales_['tr:' + k] = max(relmax(kw['tracers'][k]), 1e-300) * rate
+    for f, s in scales_.items():
+      r = relmax(_nodal(grid, jnp, tot[f]))
+      ctx.expect(margin('solid-body', r, BAL_TOL * s), f'solid-body-not-steady:{cls}',
+                 f'solid-body rotation in gradient-wind balance: {f} tendency {r:.2e}, {r / s:.2e} of its natural scale',
+                 inp)
+
+
+def probe_polynomial(ctx, E, G, cls, deg):
+  """(c) low-degree polynomial states: explicit + implicit = pointwise continuous equations (labelled test)."""
+  rng, jnp = ctx.rng, E.jnp
+  grid, coords, specs, b, n, label, pts = (G[k] for k in ('grid', 'coords', 'specs', 'b', 'n', 'label', 'pts'))
+  top, nlat = grid.modal_shape[1] - 1, grid.nodal_shape[1]
+  exact = 2 * nlat - 1 if G['spacing'] == 'gauss' else nlat - 1
+  # the largest product transformed by the code has degree 3 deg + 1 (sigma-dot dv/dsigma), its divergence 3 deg + 2
+  assert 3 * deg + 2 <= top - 1 and 3 * deg + 2 + top <= exact, 'generator outside the resolved, alias-free domain'
+  t0, a = G['t0'], specs.radius
+  amp = float(rng.choice([0.3, 1.0, 3.0])) * a * a * specs.angular_velocity     # Rossby number 0.3 .. 3
+  tref = t0 * rng.uniform(0.7, 1.2, n) if rng.random() < 0.7 else np.full(n, t0)
+  fields = dict(psi=Poly.random(rng, deg, n, amp), chi=Poly.random(rng, deg, n, 0.3 * amp),
+                T=Poly.random(rng, deg, n, 0.1 * t0) + Poly.const(t0 * rng.uniform(0.8, 1.1, n)),
+                pi=Poly.random(rng, deg, 1, 0.2), h=Poly.random(rng, deg, 1, 0.05 * specs.R * t0 / specs.g))
+  tracers = {}
+  for k in _tracer_names(cls, extra=bool(rng.integers(0, 2))):
+    if k == Q_KEY:
+      tracers[k] = Poly.random(rng, deg, n, 0.005) + Poly.const(rng.uniform(0.005, 0.02, n))
+    elif k in (QL_KEY, QI_KEY):
+      tracers[k] = Poly.random(rng, deg, n, 0.001) + Poly.const(np.full(n, 0.002))
+    else:
+      tracers[k] = Poly.random(rng, deg, n, 1.0)
+  inp = dict(probe='polynomial-state', cls=cls, degree=deg, grid=label, boundaries=b.tolist(), tref=tref.tolist(),
+             amplitude=amp, omega=specs.angular_velocity, radius=a, g=specs.g, R=specs.R, R_vapor=specs.R_vapor,
+             Cp_vapor=specs.Cp_vapor, kappa=specs.kappa, tracers=sorted(tracers), seed=ctx.seed,
+             coefficients={k: v.c.tolist() for k, v in fields.items()} if n <= 2 and deg <= 1 else 'ctx.rng')
+  ctx.dist[f'polynomial:{cls}:deg={deg}:{label}:layers={n}'] += 1
+  ctx.case(('poly', cls, deg, label, fields['psi'].c.tobytes(), b.tobytes()), nontrivial=True,
+           sample=dict(inp, coefficients='...') if cls == 'dry' else None)
+  orc, st = c05_pe.sphere_oracle(cls, b, c05_pe.phys_of(specs), tref, fields, tracers, pts)
+  with ctx.impl('polynomial-state-raised', inp):
+    kw, oro = state_from_fields(E, G, fields, tracers, tref, st)
+    tot = E.total(cls, tref, oro, coords, specs, kw)
+    for f, want in orc.items():
+      got = _nodal(grid, jnp, tot[f])
+      if f == 'temperature_variation' and cls in ('moist', 'cloud'):
+        # kappa_eff is a rational function of q: the pointwise field is not band-limited; compare its spectral
+        # projection (same quadrature on both sides)
+        want = _nodal(grid, jnp, grid.clip_wavenumbers(grid.to_modal(jnp.asarray(want))))
+      s = max(relmax(want), 1e-300)
+      r = relmax(got, want)
+      ctx.expect(margin('oracle', r, ORACLE_TOL * s), f'continuous-equations:{cls}:{f.split(":")[0]}',
+                 f'{f}: explicit + implicit differs from the continuous sigma-coordinate equations by {r / s:.2e} '
+                 f'(degree-{deg} polynomial state)', inp)
+    if cls != 'dry':
+      ctx.expect(tot['sim_time'] == 1.0, f'continuous-equations:{cls}:sim_time', 'sim_time does not advance at rate one', inp)
+
+
+def probe_primitive(ctx):
+  E = c05_pe.Env()
+  rng, jnp = ctx.rng, E.jnp
+  rest_correspondence(ctx, E)
+  # (grid, layers) combinations: JAX compiles per shape, so few shapes and several level sets / states per shape
+  combos = [dict(wn=21, spacing='gauss', impl='real', dealiasing='quadratic', n=3, radius=1.0, deg=3),
+            dict(wn=15, spacing='gauss', impl='fast', dealiasing='quadratic', n=1, radius=2.5, deg=2),
+            dict(wn=15, spacing='equiangular', impl='real', dealiasing='cubic', n=4, radius=1.0, deg=2)]
+  if not ctx.quick:
+    combos += [dict(wn=31, spacing='gauss', impl='real', dealiasing='quadratic', n=5, radius=1.0, deg=3),
+               dict(wn=21, spacing='gauss', impl='fast', dealiasing='quadratic', n=2, radius=0.4, deg=3),
+               dict(wn=21, spacing='equiangular', impl='fast', dealiasing='cubic', n=8, radius=1.0, deg=3),
+               dict(wn=42, spacing='gauss', impl='real', dealiasing='quadratic', n=6, radius=1.0, deg=3)]
+  reps = ctx.n(2, 6)
+  for ci, c in enumerate(combos):
+    grid = E.grid(c['wn'], c['spacing'], c['impl'], c['radius'], c['dealiasing'])
+    label = f"T{c['wn']}-{c['spacing']}-{c['impl']}-r{c['radius']}"
+    # the constant field as ONE spectral coefficient (to_modal(ones) carries quadrature noise of 1e-13 in the other
+    # coefficients, which the Laplacian amplifies; the family of T5.1 is `c * oneModal` with lap(oneModal) = 0 exactly)
+    one = np.zeros(grid.modal_shape)
+    one[0, 0] = float(_modal(grid, jnp, np.ones(grid.nodal_shape))[0, 0])
+    G0 = dict(grid=grid, label=label, spacing=c['spacing'], pts=c05_pe.nodal_points(grid), one=one)
+    for rep in range(reps):
+      b, kind = dinoutil.random_boundaries(rng, c['n'], None if rep else ['uneven', 'equidistant', 'strongly-uneven'][ci % 3])
+      specs = E.specs(rng, c['radius'], si=(c['radius'] == 1.0 and rep == 1))
+      G = dict(G0, b=b, n=len(b) - 1, specs=specs, t0=float(rng.uniform(0.05, 0.5)) / specs.R,
+               coords=E.cs.CoordinateSystem(horizontal=grid, vertical=E.sc.SigmaCoordinates(b)))
+      for k, cls in enumerate(PE_CLASSES):
+        probe_rest(ctx, E, G, cls, 'theorem')
+        if (k + rep + ci) % 2 == 0:
+          probe_rest(ctx, E, G, cls, ['unclipped', 'tref-split'][(k // 2 + rep) % 2])
+        if (k + rep) % 2 == 0 or not ctx.quick:
+          probe_solid_body(ctx, E, G, cls)
+        if (k + rep + ci) % 2 == 1 or not ctx.quick:
+          probe_polynomial(ctx, E, G, cls, int(rng.integers(1, c['deg'] + 1)) if rep else c['deg'])
+
+
 def run(ctx: common.Ctx):
-  common.setup_jax()
+  jax = common.setup_jax()
+  try:   # the checks call the real code eagerly: every primitive is compiled once per shape; keep them across runs
+    import os
+    cdir = os.path.join(common.WORK, 'jaxcache_C05')
+    os.makedirs(cdir, exist_ok=True)
+    jax.config.update('jax_compilation_cache_dir', cdir)
+    jax.config.update('jax_persistent_cache_min_entry_size_bytes', -1)
+    jax.config.update('jax_persistent_cache_min_compile_time_secs', 0.0)
+  except Exception:  # pylint: disable=broad-except
+    pass
   ctx.lean('DinoProofs.Properties.C05', 'C05.txt',
            extra_files=['DinoProofs/Lemmas/Balance.lean', 'DinoProofs/Lemmas/BalanceSW.lean', 'Dino/DynamicsSW.lean',
                         'Dino/Dynamics.lean'])
+  import time
+  t = [time.time()]
+
+  def lap(name):
+    t.append(time.time())
+    ctx.notes.append(f'wall {name}: {t[-1] - t[-2]:.1f}s')
+  lap('lean build + audit')
   run_shallow_water(ctx)
+  lap('shallow-water correspondence')
+  from dinosaur import spherical_harmonic as sh
+  for label, kw in [('T15-gauss', dict()), ('T21-gauss-fast-r2', dict(radius=2.0, spherical_harmonics_impl=sh.FastSphericalHarmonics)),
+                    ('T15-equiangular-cubic', dict(latitude_spacing='equiangular', dealiasing='cubic'))]:
+    validate_operator_laws(ctx, sh.Grid.with_wavenumbers(21 if 'T21' in label else 15, **kw), label)
+  lap('operator laws')
   probe_shallow_water(ctx)
+  lap('shallow-water probes')
+  probe_primitive(ctx)
+  lap('primitive-equation correspondence + probes')
+  ctx.notes.append('worst measured / allowed per probe: ' +
+                   ', '.join(f'{k}={v:.1e}' for k, v in sorted(WORST.items())))
   return ctx.finish(RULE, 'theorems are about the Lean models Dino.Dynamics / Dino.DynamicsSW; the horizontal '
                     'operators are abstract (laws are hypotheses, validated numerically on real grids each run); '
                     'agreement with the continuous equations on general low-degree states is an analytic-oracle test')
